@@ -594,6 +594,12 @@ def judge_pixels(j, f, case, spec, buf, trace, full_filename):
               f'{n - avail} of {n} pixels are not in the file (chunk_size={case["chunk"] or 8192}, {nr} rows)',
               mechanism=W.pix_mechanism(trace, d.size))
     ctx.event('content:pixels', int(avail) * nr)
+    by = W.forms_of(case).get('bystander')
+    if by and avail:
+        # the table carried further coordinates / masks that are not among the selected rows: the rows are
+        # still the supplied rows (signal = values, error = variances of the DATA)
+        ctx.event('content:pixels_of_a_table_with_bystanders', int(avail) * nr)
+        ctx.hit('bystander:' + by)
     for i, name in enumerate(names):
         exact = rows_exact[i][:avail]
         raw = rows_raw[i][:avail]
@@ -1121,9 +1127,10 @@ def _compare_block(rd, sc, case, spec, d, b, got):
         if not isinstance(got, list) or len(got) != len(recs):
             rd.j.bad('reader_shape', blk, '', f'reader returns {len(got)} runs, stored {len(recs)}', mechanism='shape')
             return
+        keep_extra = dict(rd.j.extra)
         for i, (g, s, e) in enumerate(zip(got, recs, spec['experiments'], strict=True)):
             bi = 'expdata[0]' if i == 0 else 'expdata[i>0]'
-            rd.j.extra = {'emode': e['emode']}
+            rd.j.extra = {**keep_extra, 'emode': e['emode']}
             rd.same(bi, 'filename', g.filename, _t(s['filename']))
             rd.same(bi, 'filepath', g.filepath, _t(s['filepath']))
             rd.same(bi, 'run_id', g.run_id, int(s['run_id'].scalar()) - 1)
@@ -1139,7 +1146,7 @@ def _compare_block(rd, sc, case, spec, d, b, got):
                 rd.var(bi, a, getattr(g, a), np.float64(s[a].scalar()), *WRITTEN[a], shape=())
             rd.var(bi, 'u', g.u, _arr(s['u']), 'dimensionless', None)
             rd.var(bi, 'v', g.v, _arr(s['v']), 'dimensionless', None)
-        rd.j.extra = {}
+        rd.j.extra = keep_extra
     elif name == ('data', 'metadata'):
         a, p = st['axes'].struct(), st['proj'].struct()
         ga, gp = got.axes, got.proj
@@ -1173,6 +1180,203 @@ def _compare_block(rd, sc, case, spec, d, b, got):
         rd.same(pb, 'type', gp.type, _t(p['type']))
 
 
+# ------------------------------------------------ C13's own additions to the C12 workload ---
+# (a) bystanders: a pixel table may carry any number of further coordinates and masks; they are not among the
+#     selected rows and must not change the file.  Names: the names of the two rows that are NOT coordinates
+#     (signal = values, error = variances of the data), names the writer uses internally, the name of the pixel
+#     dimension, near misses of row names; as 1-d coordinates (float64 / float32, in the declared unit of the row,
+#     so that nothing but the NAME tells them from the data), bin-edge coordinates, 0-d coordinates, masks.
+#     Their values are unlike every supplied row (>= 1000 above the largest supplied magnitude is not needed:
+#     the comparison is exact).
+BYSTANDERS = ('data_rows', 'data_rows_float32', 'data_rows_bin_edges', 'data_rows_0d', 'internal_names',
+              'masks_named_after_rows')
+INTERNAL_NAMES = ('row', 'rows', 'pix', 'pixels', 'data', 'values', 'variances', 'npix', 'n_pixels', 'data_range',
+                  'row_units', 'chunk', '', ' signal', 'Signal', 'error ', 'u5', 'u0', 'run', 'irun_', 'metadata')
+# (b) results that are KEPT: what read_data_block returned for a file stays what it was when the file at that path
+#     is afterwards written again by the builder / overwritten in place / truncated and rewritten with content of
+#     the same size / replaced / deleted, for arrays below and from 64 KiB (the page-cache / buffer sizes of the
+#     platform); the results are ordinary aligned arrays the caller can write into, and writing into them does
+#     not change the file.
+STALE_HOWS = ('rewritten_by_the_builder', 'overwritten_in_place', 'truncated_and_rewritten', 'replaced', 'deleted')
+STALE_SIZES = ('below_64KiB', 'from_64KiB')
+EXTRA_ITEM_BASE = 1_000_000
+
+
+def extra_items(shard):
+    """Items of C13 only (same format as W.make_items), dealt out over the shards."""
+    tier, seed = shard.get('tier', 'quick'), int(shard.get('seed', 0))
+    orders = ('native', 'little', 'big')
+    cases = []
+    for i, kind in enumerate(BYSTANDERS):
+        for j in range(2):
+            k = 2 * i + j
+            cases.append(W._base_case(
+                forms={'bystander': kind}, npix=(1, 9, 57, 300, 2000)[(k + seed) % 5],
+                chunk=(None, 1, 7, 64)[(k + seed) % 4], byteorder=orders[(k + seed) % 3],
+                target=('bytesio', 'file')[(i + j + seed) % 2],
+                rowset=('default', 'explicit', 'reordered', 'custom_units')[(k + seed) % 4],
+                dtypes=('mixed', 'all_f64')[(i + seed) % 2], values=('forced', 'wide')[j],
+                program=list(W.CALLS) if j else ['pix']))
+    for i, how in enumerate(STALE_HOWS):
+        for j in range(2):
+            cases.append(W._base_case(
+                forms={'stale': how}, target='file', mode='direct', values='wide', byteorder=orders[(i + j + seed) % 3],
+                npix=1820 if j == 0 else 1821 + ((seed + i) * 211) % 1500,
+                dnd_bins=[16, 16, 4, 7] if j == 0 else [16, 16, 8, 4], chunk=(None, 1000)[(i + seed) % 2],
+                path=('plain', 'nonascii')[(i + j) % 2]))
+    cases.append(W._base_case(forms={'stale': STALE_HOWS[seed % 3]}, target='file', mode='direct', values='wide',
+                              byteorder=orders[(seed + 1) % 3], npix=20000, dnd_bins=[32, 16, 8, 4]))
+    items = []
+    for k, c in enumerate(cases):
+        if (k + 3) % shard['of'] != shard['part']:
+            continue
+        c['vseed'] = [seed, 13, k, 0]
+        c['tier'] = tier
+        items.append({'kind': 'single', 'cases': [c], 'item': EXTRA_ITEM_BASE + k})
+    return items
+
+
+def add_bystanders(sc, da, spec, case):
+    """Further coordinates / masks on the pixel table ``da`` (in place): inputs, not expectations."""
+    kind = W.forms_of(case)['bystander']
+    n = spec['pix']['n']
+    dim = da.dim
+    r = np.random.Generator(np.random.PCG64([*case['vseed'], 41]))
+
+    def col(m, unit, dtype='float64', lo=1000.0):
+        return sc.array(dims=[dim], values=r.uniform(lo, 2 * lo, size=m), unit=unit, dtype=dtype)
+
+    if kind in ('data_rows', 'data_rows_float32'):
+        dt = 'float32' if kind.endswith('32') else 'float64'
+        da.coords['signal'] = col(n, 'count', dt)
+        da.coords['error'] = col(n, 'count**2', dt, 30.0)
+    elif kind == 'data_rows_bin_edges':
+        da.coords['signal'] = col(n + 1, 'count')
+        da.coords['error'] = col(n + 1, 'count**2', lo=30.0)
+    elif kind == 'data_rows_0d':
+        da.coords['signal'] = sc.scalar(float(r.uniform(1000, 2000)), unit='count')
+        da.coords['error'] = sc.scalar(float(r.uniform(30, 60)), unit='count**2')
+    elif kind == 'internal_names':
+        for k, name in enumerate((*INTERNAL_NAMES, dim)):
+            if name not in da.coords:
+                da.coords[name] = col(n, ('count', 'count**2', '1/angstrom', 'meV', None)[k % 5])
+    elif kind == 'masks_named_after_rows':
+        for name in (*W.ROWS, 'row', 'pix'):
+            da.masks[name] = sc.array(dims=[dim], values=r.random(n) < 0.5)
+    else:
+        raise ValueError(kind)
+
+
+def _arrays(obj, depth=0):
+    """Every numpy array reachable from a reader result (arrays, Variables, lists / tuples, dataclasses)."""
+    import dataclasses
+
+    if depth > 6 or obj is None or isinstance(obj, str | bytes | int | float | bool):
+        return []
+    if isinstance(obj, np.ndarray):
+        return [obj]
+    if hasattr(obj, 'values') and hasattr(obj, 'unit') and hasattr(obj, 'dims'):
+        try:
+            v = obj.values
+        except Exception:  # noqa: BLE001
+            return []
+        return [v] if isinstance(v, np.ndarray) else []
+    if isinstance(obj, list | tuple):
+        return [a for x in obj[:4] for a in _arrays(x, depth + 1)]
+    out = []
+    if dataclasses.is_dataclass(obj):
+        for fld in dataclasses.fields(obj):
+            try:
+                out += _arrays(getattr(obj, fld.name), depth + 1)
+            except AttributeError:
+                pass
+    return out
+
+
+def kept_results(ctx, S, sc, case, spec, target, f, buf):
+    """Read every block of the file just written (= ``buf``, decoded as ``f``) and KEEP the results; change the
+    file at the path; the kept results must still be the numbers of the file they were read from."""
+    how = W.forms_of(case)['stale']
+    path = os.fspath(target)
+    rd = Reader(ctx, case)
+    base = {'kept_result': 'file_' + how}
+    kept = []
+    try:
+        with warnings.catch_warnings():
+            warnings.simplefilter('ignore')
+            with S.Sqw.open(path) as sqw:
+                for b in f.block_list:
+                    if not b.ok:
+                        continue
+                    try:
+                        kept.append((b, sqw.read_data_block(b.descriptor.name)))
+                    except Exception:  # noqa: BLE001   (judged by read_back)
+                        ctx.count('kept_results:block_not_read')
+    except Exception:  # noqa: BLE001   (judged by read_back)
+        ctx.count('kept_results:open_failed')
+        return
+    # ---- the form of the results: ordinary arrays (aligned, writable)
+    big = False
+    for b, got in kept:
+        blk = '/'.join(b.descriptor.name)
+        for a in _arrays(got):
+            ctx.event('reader:result_array_form')
+            big = big or a.nbytes >= 1 << 16
+            if not (a.flags.aligned and a.flags.writeable):
+                rd.j.extra = dict(base)
+                rd.j.bad('reader_result_array_form', blk, '', f'returned array of {a.nbytes} bytes, dtype {a.dtype}: '
+                         f'aligned={a.flags.aligned} writeable={a.flags.writeable}',
+                         mechanism='not_aligned' if not a.flags.aligned else 'not_writable')
+    # ---- the file at the path changes
+    raw = np.frombuffer(bytes(buf), dtype=np.uint8).copy()
+    raw[f.bat_end:] ^= 0xFF
+    other = raw.tobytes()                     # same length, header and table; every later byte inverted
+    if how == 'rewritten_by_the_builder':
+        case2 = dict(case, vseed=[*case['vseed'], 99], forms=None)
+        spec2 = W.gen_spec(np.random.Generator(np.random.PCG64(case2['vseed'])), case2)
+        models2 = W.build_models(S, sc, spec2, case2['program'], case2)
+        W.run_program(S, case2, spec2, models2, target)         # (not judged: no case is current)
+    elif how == 'overwritten_in_place':
+        with open(path, 'r+b') as fh:
+            fh.write(other)
+    elif how == 'truncated_and_rewritten':
+        with open(path, 'wb') as fh:
+            fh.write(other)
+    elif how == 'replaced':
+        with open(path + '.new', 'wb') as fh:
+            fh.write(other)
+        os.replace(path + '.new', path)
+    elif how == 'deleted':
+        os.remove(path)
+    else:
+        raise ValueError(how)
+    now = W.read_target(target) if how != 'deleted' else None
+    if now is not None and now == buf:
+        ctx.count('undecided:kept_results_file_did_not_change')
+        return
+    # ---- the kept results against the file they were read from
+    for b, got in kept:
+        d = b.descriptor
+        blk = '/'.join(d.name)
+        rd.j.extra = dict(base)
+        ctx.event('reader:kept_results_compared_after_the_file_changed')
+        try:
+            _compare_block(rd, sc, case, spec, d, b, got)
+        except D.DecodeError:
+            ctx.count('reader_compare_skipped_unexpected_layout')
+        except (AttributeError, TypeError, IndexError, KeyError) as e:
+            rd.j.bad('reader_value', blk, '', f'returned object does not have the model layout: '
+                     f'{type(e).__name__}: {e}', mechanism='model_layout')
+    ctx.hit('kept_result:file_' + how + ':' + STALE_SIZES[int(big)])
+    # ---- writing into the kept results does not reach the file
+    rd.j.extra = dict(base)
+    wrote = sum(_scribble(got) for _, got in kept)
+    ctx.event('reader:result_written_into', wrote)
+    if now is not None and W.read_target(target) != now:
+        rd.j.bad('reader_result_aliases_file', 'file', '', 'writing into results that were kept changed the bytes '
+                 'of the file at the path', mechanism='alias')
+
+
 # ------------------------------------------------------------------- driver ---
 N_SHARDS = W.N_SHARDS
 
@@ -1189,6 +1393,8 @@ def requirements(tier):
                    'content:data_range': 100, 'content:data_range_of_masked_pixels': 10,
                    'content:histogram': 200, 'reader:blocks': 2000, 'reader:blocks_after_the_name_changed': 30,
                    'reader:result_written_into': 10, 'fresh_interpreter:runs': 2, 'content:histogram_in_a_stream_that_was_not_empty': 10,
+                   'content:pixels_of_a_table_with_bystanders': 500,
+                   'reader:kept_results_compared_after_the_file_changed': 60, 'reader:result_array_form': 200,
                    'reader:variable': 2000, 'reader:unit_dimension': 2000, 'reader:plain': 2000},
         'forced': W.FORCED + ['value:forced', 'value:wide', 'value:extreme', 'row_unit_converted', 'row_float32',
                               'row_int_in_float_row', 'angle_deg', 'angle_rad', 'lattice_nm',
@@ -1200,7 +1406,9 @@ def requirements(tier):
                               'reader_open:byteorder_str', 'reader_open:byteorder_enum',
                               *('reader_fs:' + k for k in W.READER_FS),
                               'reader:second_read_after_writing_into_the_first',
-                              *('data_range:masks=' + k for k in W.MASK_CLASSES)],
+                              *('data_range:masks=' + k for k in W.MASK_CLASSES),
+                              *('bystander:' + k for k in BYSTANDERS),
+                              *(f'kept_result:file_{h}:{z}' for h in STALE_HOWS for z in STALE_SIZES)],
     }
 
 
@@ -1232,7 +1440,7 @@ def run(shard, ctx):
     if bad:
         ctx.inconclusive_because('unit table cross-check failed: ' + '; '.join(bad))
         return
-    items = W.items_of_shard(shard)
+    items = W.items_of_shard(shard) + extra_items(shard)
     cwd_at_start = os.getcwd()
     tmpdir = tempfile.mkdtemp(prefix='rv-c13-')
     state = {'case': None, 'target': None, 'spec': None, 'file': None, 'buf': None, 'judged': False,
@@ -1271,6 +1479,8 @@ def run(shard, ctx):
                     case0, spec = W.continue_from(session, case0, spec)
                     models = W.build_models(S, sc, spec, case0.get('calls', case0['program']), case0)
                     W.describe_rows(case0, spec)
+                    if W.forms_of(case0).get('bystander') and 'pix' in models:
+                        add_bystanders(sc, models['pix'], spec, case0)
                     for case in W.case_reps(case0):
                         spec = W.mutated(sc, case, spec, models)
                         target = W.open_target(case, tmpdir, rng, session)
@@ -1299,6 +1509,12 @@ def run(shard, ctx):
                                 ctx.oracle_error('C13 read_back')
                         elif not state['judged'] and not state['refused']:
                             ctx.count('create_not_observed')
+                        if f is not None and not (f.header_error or f.bat_error) and \
+                                W.forms_of(case).get('stale') and not isinstance(target, io.BytesIO):
+                            try:
+                                kept_results(ctx, S, sc, case, spec, target, f, state['buf'])
+                            except Exception:  # noqa: BLE001
+                                ctx.oracle_error('C13 kept_results')
                         W.close_case(session, case, spec, target, f)
                         W.hit_forced(ctx, case, spec)
                         hit_values(ctx, case, spec)
